@@ -192,7 +192,7 @@ theorem openAndOverwrite_meaning (o : Oracle W) (w : W) (t : FdTable) (r : Redir
               · cases h; exact ⟨e0, hg, hc'⟩
           · rw [if_pos (by simpa using hacc)] at hp; cases hp
     | hereDoc content =>
-      simp only [prepare, hereDocFd, allocLowest] at hp hok ⊢
+      simp only [prepare, hereDocFd, allocLowest, hereDocCloexec_false, hereDocClosesOnFailure_true, if_true] at hp hok ⊢
       refine ⟨?_, fun _ _ h => by cases h⟩
       cases ha : t.openFdGe 0 { ofd := (o.tmpfile w).2, cloexec := false } (o.deny (o.tmpfile w).1).2 with
       | none => simp only [ha] at hp; cases hp
